@@ -1060,7 +1060,7 @@ def main():
     classify=_poshist_classify,
     nontrivial=lambda a, r, exc: r is not None and (r["relabels"] > 0 or bool(r["fails"])))
   # (4 worker processes: engine-heavy cases scale badly beyond that in forked pool workers)
-  fn.check(rep, poshist, _poshist_cases, exhaustive=True, limit_quick_s=40, limit_thorough_s=300,
+  fn.check(rep, poshist, _poshist_cases, exhaustive=True, limit_quick_s=30, limit_thorough_s=300,
            warm_engine=True, procs=4)
 
   from vlib.rtc import explore
